@@ -37,13 +37,9 @@ def arc_from_theta(edge_point_1: PointType, edge_point_2: PointType, angle: floa
 
     center = pm - length * axis / 2 - rm * mag_chord / 2 / np.tan(angle / 2)
 
-    arc_mid = f.arc_mid(axis, center, edge_point_1, edge_point_2)
-
-    if abs(angle) > np.pi:
-        # the middle of a reflex arc is on the far side of the center
-        arc_mid = 2 * center - arc_mid
-
-    return arc_mid
+    # half of the rotation that takes point 1 to point 2; unlike a projection of the chord's
+    # middle from the center this also works for sector angles of 180 degrees and above
+    return f.rotate(edge_point_1, angle / 2, axis, center) + length * axis / 2
 
 
 @dataclasses.dataclass
